@@ -164,7 +164,7 @@ func runC20(c *Ctx) {
 			r.Unresolved("reg/atomic-with-shutdown", key, "method not found")
 			continue
 		}
-		recvObj := info.Defs[fd.Recv.List[0].Names[0]]
+		recvObj := info.Defs[recvIdentOf(fd)]
 		recvPath := fmt.Sprintf("%s@%d", recvObj.Name(), recvObj.Pos())
 		f := newFuncCFG(p, info, fd.Body, key)
 		// stopped tests evaluated with the lock held
@@ -221,7 +221,7 @@ func runC20(c *Ctx) {
 		r.Unresolved("reg/atomic-with-shutdown", pkg+".OrderedDaemon.shutdown", "method not found")
 	} else {
 		key := pkg + ".OrderedDaemon.shutdown"
-		recvObj := info.Defs[fd.Recv.List[0].Names[0]]
+		recvObj := info.Defs[recvIdentOf(fd)]
 		recvPath := fmt.Sprintf("%s@%d", recvObj.Name(), recvObj.Pos())
 		n, okLocked := 0, true
 		AnalyzeLocks(fd.Body, LockSet{}, &FlowOpts{Info: info}, func(nd ast.Node, stack []ast.Node, held LockSet) {
